@@ -313,20 +313,31 @@ impl Emit<'_> {
         let (mappings, ranges) = self.mappings(nsrc, nnames, allow_bad);
         let mut keys: Vec<(String, String)> = Vec::new();
         let rng = &mut *self.rng;
-        if !rng.chance(1, 10) {
-            keys.push(("version".into(), "3".into()));
+        // every field takes each of its shapes now and then: absent / null / empty / typical /
+        // extreme / wrong type (the last ones make the document undecodable, which is fine: the
+        // rejection path is part of the workload)
+        match rng.below(20) {
+            0 | 1 => {}
+            2 => keys.push(("version".into(), (*rng.pick(&["0", "4294967295", "null", "\"3\"", "3.0", "-1", "4294967296"])).into())),
+            _ => keys.push(("version".into(), "3".into())),
         }
-        match rng.below(5) {
-            0 => {}
-            1 => keys.push(("file".into(), "17".into())),
+        match rng.below(10) {
+            0 | 1 => {}
+            2 => keys.push(("file".into(), (*rng.pick(&["17", "null", "true", "{}", "[\"a\"]", "1e400"])).into())),
             _ => keys.push(("file".into(), jstr(word(rng)))),
         }
         if rng.chance(1, 3) {
-            keys.push(("sourceRoot".into(), jstr(*rng.pick(&["", "root", "root/", "/r", "http://x/y/"]))));
+            if rng.chance(1, 12) {
+                keys.push(("sourceRoot".into(), "null".into()));
+            } else {
+                keys.push(("sourceRoot".into(), jstr(*rng.pick(&["", "root", "root/", "/r", "http://x/y/", "r//", "/", "é/", "HTTP://X/", "C:\\r"]))));
+            }
         }
         let sources: Vec<String> = (0..nsrc).map(|_| if rng.chance(1, 10) { "null".into() } else { jstr(word(rng)) }).collect();
         if nsrc > 0 || !rng.chance(1, 4) {
             keys.push(("sources".into(), format!("[{}]", sources.join(","))));
+        } else if rng.chance(1, 3) {
+            keys.push(("sources".into(), "null".into()));
         }
         if rng.chance(1, 2) {
             let n = if rng.chance(1, 6) { rng.small(5) as u32 } else { nsrc };
@@ -335,40 +346,76 @@ impl Emit<'_> {
                     if rng.chance(1, 4) {
                         "null".into()
                     } else {
-                        jstr(*rng.pick(&["", "function foo(){}\n", "var x = function a(b) { return b }\r\nx()", "é👌\n\n", "//# sourceMappingURL=x.map"]))
+                        jstr(*rng.pick(&[
+                            "",
+                            "function foo(){}\n",
+                            "var x = function a(b) { return b }\r\nx()",
+                            "é👌\n\n",
+                            "//# sourceMappingURL=x.map",
+                            "function 👌a(){};function b👌(){};var c=function d(){}",
+                            "\r",
+                            "a\rb\r",
+                            "x=function(){return function y(){}}();                                                                                function z(){}",
+                            "//# sourceURL=/home/émilie/app.js\nfunction f(){}",
+                        ]))
                     }
                 })
                 .collect();
             keys.push(("sourcesContent".into(), format!("[{}]", items.join(","))));
+        } else if rng.chance(1, 20) {
+            keys.push(("sourcesContent".into(), "null".into()));
         }
         let names: Vec<String> = (0..nnames)
             .map(|_| match rng.below(10) {
                 0 => "12".into(),
                 1 => "null".into(),
-                2 => "1.5".into(),
+                2 => (*rng.pick(&["1.5", "true", "{}", "[1]", "-0", "1e308", "18446744073709551616"])).into(),
                 _ => jstr(word(rng)),
             })
             .collect();
         if nnames > 0 || !rng.chance(1, 4) {
             keys.push(("names".into(), format!("[{}]", names.join(","))));
+        } else if rng.chance(1, 3) {
+            keys.push(("names".into(), "null".into()));
         }
-        if !rng.chance(1, 12) {
-            keys.push(("mappings".into(), jstr(&mappings)));
+        match rng.below(24) {
+            0 | 1 => {}
+            2 => keys.push(("mappings".into(), (*rng.pick(&["null", "17", "[]"])).into())),
+            _ => keys.push(("mappings".into(), jstr(&mappings))),
         }
         if ranges.iter().any(|l| l.iter().any(|b| *b)) && rng.chance(2, 3) {
             let rm = self.range_mappings(&ranges);
             keys.push(("rangeMappings".into(), jstr(&rm)));
+        } else if rng.chance(1, 16) {
+            // not derived from the mappings: more lines than the mappings have, characters at the
+            // edge of the alphabet, one outside it, or not a string at all
+            keys.push(("rangeMappings".into(), (*rng.pick(&["\"/\"", "\"+;9;/\"", "\";;;;;;;;B\"", "\"//////\"", "\"A\"", "\"B!\"", "\"\"", "null", "\"g;g;g\""])).into()));
         }
         let rng = &mut *self.rng;
         if rng.chance(1, 5) {
-            let items: Vec<String> = (0..rng.small(3)).map(|_| rng.below(nsrc as u64 + 2).to_string()).collect();
+            let items: Vec<String> = (0..rng.small(4))
+                .map(|_| if rng.chance(1, 6) { (*rng.pick(&["4294967295", "2147483648", "0", "0"])).to_string() } else { rng.below(nsrc as u64 + 2).to_string() })
+                .collect();
             keys.push(("ignoreList".into(), format!("[{}]", items.join(","))));
+        } else if rng.chance(1, 40) {
+            keys.push(("ignoreList".into(), (*rng.pick(&["null", "[null]", "[-1]", "[4294967296]"])).into()));
+        }
+        const IDS: [&str; 9] = [
+            "00000000-0000-0000-0000-000000000000",
+            "9f6a8e2e-3c4b-4d5e-8f7a-1b2c3d4e5f60",
+            "9F6A8E2E-3C4B-4D5E-8F7A-1B2C3D4E5F60",
+            "9f6a8e2e3c4b4d5e8f7a1b2c3d4e5f60",
+            "9f6a8e2e-3c4b-4d5e-8f7a-1b2c3d4e5f60-a",
+            "9f6a8e2e-3c4b-4d5e-8f7a-1b2c3d4e5f60-ffffffff",
+            "9f6a8e2e3c4b4d5e8f7a1b2c3d4e5f60a",
+            "not-a-debug-id",
+            "",
+        ];
+        if rng.chance(1, 5) {
+            keys.push(("debug_id".into(), if rng.chance(1, 16) { "null".into() } else { jstr(*rng.pick(&IDS[..])) }));
         }
         if rng.chance(1, 5) {
-            keys.push(("debug_id".into(), jstr("00000000-0000-0000-0000-000000000000")));
-        }
-        if rng.chance(1, 5) {
-            keys.push(("debugId".into(), jstr("9f6a8e2e-3c4b-4d5e-8f7a-1b2c3d4e5f60")));
+            keys.push(("debugId".into(), if rng.chance(1, 16) { "17".into() } else { jstr(*rng.pick(&IDS[..])) }));
         }
         if hermes {
             // usually one entry per source; sometimes fewer or more (the format does not tie them)
